@@ -40,7 +40,7 @@ REQUIRED_ORACLES = ['B1', 'B2', 'B3', 'B1u', 'B2u', 'B3u', 'INV']
 _WIN = ['win:%s:%s:%s' % (q, d, w) for q in 'HG' for d in ('fwd', 'rev') for w in ('zero', 'barrier', 'delta')]
 DESCRIPTORS = ['delta_H', 'rev_delta_H', 'reactants_H', 'products_H',
                'delta_E', 'rev_delta_E', 'reactants_E', 'products_E']
-REQUIRED_CLASSES = (['B1:ChemkinReaction', 'B1:SurfaceReaction', 'B1:ts', 'B1:no_ts', 'B1:bep_ts', 'exo', 'endo',
+REQUIRED_CLASSES = (['B1:ChemkinReaction', 'B1:SurfaceReaction', 'B1:ts', 'B1:no_ts', 'B1:bep_ts', 'B1:ts_attached_later', 'exo', 'endo',
                      'barrierless', 'high_barrier'] + _WIN +
                     ['desc:' + d for d in DESCRIPTORS] +
                     ['bep:BEP', 'bep:omkm.BEP', 'slope:0', 'slope:1', 'slope:inner', 'B2:Reaction',
@@ -188,6 +188,8 @@ def _gen_clamp(rng, cls=None, has_ts=None):
     spec['cond'] = RG.gen_conditions(rng, spec)
     spec['steer'] = _steer(rng, spec) if rng.random() < 0.7 else None
     spec['units'] = rng.sample(ACT_UNITS, 2)
+    # history: the transition state is attached through the public setters after construction
+    spec['ts_history'] = 'attach_later' if (has_ts and rng.random() < 0.25) else None
     return spec
 
 
@@ -940,8 +942,16 @@ def _run_A_surface(spec, ctx, rxn, objs):
 
 # =========================================================================== driver
 def run_case(spec, ctx):
-    rxn, objs = _build(spec)
     kind = spec['kind']
+    if kind == 'clamp' and spec.get('ts_history') == 'attach_later' and spec.get('ts') and not spec.get('bep'):
+        # built without a transition state, which is then assigned through the public setters: the
+        # clamps must see it exactly as if it had been given to the constructor
+        rxn, objs = _build(dict(spec, ts=None))
+        rxn.transition_state = [objs[n] for n, _ in spec['ts']]
+        rxn.transition_state_stoich = [v for _, v in spec['ts']]
+        ctx.cls('B1:ts_attached_later')
+    else:
+        rxn, objs = _build(spec)
     if kind == 'clamp':
         _run_clamp(spec, ctx, rxn, objs)
     elif kind == 'bep':
